@@ -600,6 +600,59 @@ def twostep_compact(which: int, order: bool, vr: bool) -> bool:
     return objs[which].payload == [PAYLOAD, b"other-payload"][which] and objs[which].protected == [{"alg": "HS256"}, {"alg": "HS256", "typ": "x"}][which]
 
 
+def history_two_calls(form: int, same_sig: bool, v0: bool, v1: bool) -> bool:
+    """
+    pre: 0 <= form <= 4
+    post: _
+    """
+    # One process, two calls: token 1, then a token with the SAME protected segment (and, if same_sig, the same signature segment)
+    # over another payload.  The second call must be decided by a comparison over ITS OWN signing input: whatever the first call
+    # left behind (memo, cache, shared object) must not answer for it.  form: 0 compact, 1 flattened, 2 general, 3/4 RFC 7797 json/compact
+    rt.tick()
+    env = ice.Env(True, [v0, v1])
+    env.bind_b64(H, b"HDRJSON")
+    env.bind_json(b"HDRJSON", lambda: {"alg": "HS256"})
+    env.bind_b64(P, PAYLOAD)
+    env.bind_b64(P2, b"other-payload")
+    env.bind_b64(S, sigv("HS256"))
+    env.bind_b64(S2, sigv("HS256", 2))
+    s2 = S if same_sig else S2
+
+    def call(pseg, sseg):
+        if form == 0:
+            return jws.deserialize_compact(H + b"." + pseg + b"." + sseg, _KA, ["HS256"])
+        if form == 4:
+            return d7797_compact(H + b"." + pseg + b"." + sseg, _KA, None, ["HS256"])
+        if form == 2:
+            value = {"payload": pseg.decode(), "signatures": [{"protected": H.decode(), "signature": sseg.decode()}]}
+        else:
+            value = {"payload": pseg.decode(), "protected": H.decode(), "signature": sseg.decode()}
+        return (d7797_json if form == 3 else jws.deserialize_json)(value, _KA, ["HS256"])
+    with env.installed():
+        objs = []
+        for pseg, sseg in ((P, S), (P2, s2)):
+            try:
+                objs.append(call(pseg, sseg))
+            except ice.HarnessError:
+                raise
+            except Exception:  # noqa
+                objs.append(None)
+    cmp_ = env.of("compare")
+    if len(cmp_) != 2:
+        return False                             # each call consults the MAC comparison exactly once
+    for i, (pseg, sseg, vr) in enumerate(((P, S, v0), (P2, s2, v1))):
+        c = cmp_[i]
+        mac = ice.mac_tag("sha256", _KA.raw_value, H + b"." + pseg)
+        sig = sigv("HS256", 1 if sseg == S else 2)
+        if not ((c["a"] == sig and c["b"] == mac) or (c["b"] == sig and c["a"] == mac)):
+            return False
+        if (objs[i] is not None) != vr:
+            return False
+        if objs[i] is not None and objs[i].payload != [PAYLOAD, b"other-payload"][i]:
+            return False
+    return True
+
+
 def replay_twostep(which, order):
     from vlib import refjose as R
     from joserfc.jwk import OctKey
@@ -710,13 +763,84 @@ def replay_asym(alg_i, key_i, sig_i, vr):
 ES_CURVE_BY_CRV = {"P-256", "P-384", "P-521", "secp256k1"}
 
 
+def replay_history():
+    """CrossHair saw the verification code keep state between executions.  Scripted concrete histories on the real code: a genuine
+    token is verified first (a legitimate call), then tokens that splice its protected header and signature onto another payload, or
+    present it under another key, or flip a signature octet; and the same forged tokens before the genuine one.  Whatever an
+    independent RFC 7515 verifier rejects must be rejected at every point of every history."""
+    import warnings
+    warnings.simplefilter("ignore")
+    from vlib import refjose as R
+    from joserfc.jwk import JWKRegistry
+    from joserfc.rfc7797 import deserialize_json as d7797_json_, deserialize_compact as d7797_compact_
+    cases = [("HS256", R.test_key("oct32"), dict(R.test_key("oct32"), k=R.b64e(b"another-32-octet-secret-for-hs256"))),
+             ("RS256", R.test_key("RSA2048"), None), ("ES256", R.test_key("P-256"), None)]
+    tried = 0
+    for alg, jwk, other in cases:
+        try:
+            key = JWKRegistry.import_key(jwk)
+            okey = JWKRegistry.import_key(other) if other else None
+        except Exception:  # noqa
+            continue
+        pr = R.b64e(json.dumps({"alg": alg}, separators=(",", ":")).encode())
+        p1, p2 = R.b64e(b"genuine payload"), R.b64e(b"forged payload")
+        sig = R.jws_sign(alg, jwk, pr.encode() + b"." + p1.encode())
+        s1 = R.b64e(sig)
+        sbad = R.b64e(bytes([sig[0] ^ 1]) + sig[1:])
+        genuine = [("compact", lambda: jws.deserialize_compact("%s.%s.%s" % (pr, p1, s1), key, [alg])),
+                   ("flattened", lambda: jws.deserialize_json({"protected": pr, "payload": p1, "signature": s1}, key, [alg])),
+                   ("general", lambda: jws.deserialize_json({"payload": p1, "signatures": [{"protected": pr, "signature": s1}]}, key, [alg])),
+                   ("7797-json", lambda: d7797_json_({"protected": pr, "payload": p1, "signature": s1}, key, [alg])),
+                   ("7797-compact", lambda: d7797_compact_(("%s.%s.%s" % (pr, p1, s1)).encode(), key, None, [alg]))]
+        forged = []
+        for pay, sg, k, why in [(p2, s1, key, "signature spliced onto another payload"), (p1, sbad, key, "one signature bit flipped"),
+                                (p1, s1, okey, "verified under another key")]:
+            if k is None:
+                continue
+            forged += [("compact: " + why, lambda pay=pay, sg=sg, k=k: jws.deserialize_compact("%s.%s.%s" % (pr, pay, sg), k, [alg])),
+                       ("flattened: " + why, lambda pay=pay, sg=sg, k=k: jws.deserialize_json({"protected": pr, "payload": pay, "signature": sg}, k, [alg])),
+                       ("general: " + why, lambda pay=pay, sg=sg, k=k: jws.deserialize_json({"payload": pay, "signatures": [{"protected": pr, "signature": sg}]}, k, [alg])),
+                       ("7797-json: " + why, lambda pay=pay, sg=sg, k=k: d7797_json_({"protected": pr, "payload": pay, "signature": sg}, k, [alg])),
+                       ("7797-compact: " + why, lambda pay=pay, sg=sg, k=k: d7797_compact_(("%s.%s.%s" % (pr, pay, sg)).encode(), k, None, [alg]))]
+        # the reference verifier's verdicts: the genuine token verifies, none of the forged ones does
+        si1 = pr.encode() + b"." + p1.encode()
+        if not R.jws_verify(alg, jwk, si1, sig) or R.jws_verify(alg, jwk, pr.encode() + b"." + p2.encode(), sig) \
+                or R.jws_verify(alg, jwk, si1, R.b64d(sbad)) or (other and R.jws_verify(alg, other, si1, sig)):
+            return {"violated": None, "detail": "reference verifier disagrees with the script's own labels"}
+        for order in ("forged-first", "genuine-first", "interleaved"):
+            seq = {"forged-first": forged + genuine + forged, "genuine-first": genuine + forged,
+                   "interleaved": [x for g in genuine for x in [g] + forged]}[order]
+            done = []
+            for label, f in seq:
+                tried += 1
+                is_forged = ": " in label
+                try:
+                    obj = f()
+                except Exception as e:  # noqa
+                    if not is_forged and not isinstance(e, TypeError):
+                        done.append(label + " -> " + type(e).__name__)
+                    continue
+                done.append(label + " -> returned")
+                if is_forged:
+                    return {"violated": True, "key": "c01-history", "detail": "%s, history %s: after %r the call %r RETURNED payload %r although an independent "
+                            "RFC 7515 verifier rejects it" % (alg, order, done[:-1][-6:], label, obj.payload)}
+                if obj.payload != b"genuine payload":
+                    return {"violated": True, "key": "c01-history-payload", "detail": "%s, history %s: %r returned payload %r" % (alg, order, label, obj.payload)}
+    return {"violated": None, "detail": "nondeterminism seen by CrossHair but none of %d scripted calls (genuine/forged histories, 3 algorithms, "
+            "5 entry points) returned a forged token" % tried}
+
+
 def replay(func, call):
+    if call == "@nondeterministic":
+        return replay_history()
     import warnings
     warnings.simplefilter("ignore")
     from vlib import refjose as R
     args = eval("(" + call + ",)")
     if func == "twostep_compact":
         return replay_twostep(args[0], args[1])
+    if func == "history_two_calls":
+        return replay_history()
     if func in ("compact_asym", "compact_asym_witness"):
         return replay_asym(*args)
     if func.startswith("compact_"):
